@@ -80,6 +80,12 @@ func (g *generator) run(r *runner) {
 			} // one case per quick run (sixty in thorough; the model's replay of such a case takes seconds): more than a
 			// thousand elements, loaded by ONE bulk operation
 		}
+		// the zero value is what "not found" answers look like: one ordinary case in five starts by inserting it
+		if len(c.fixed) == 0 && g.chance(20) {
+			if z := zeroOp(c.cfg.Kind); z != nil {
+				c.fixed = []*Op{z}
+			}
+		}
 		r.runCase(id, c.cfg, c)
 	}
 	if g.tier == "thorough" && (g.prop == "C08" || g.prop == "all") {
@@ -845,6 +851,20 @@ func (g *generator) newCase(prop string, i int) *caseGen {
 		}
 	}
 	return c
+}
+
+func zeroOp(kind string) *Op {
+	switch {
+	case isKVKind(kind):
+		return &Op{Name: "Put", I: 0, J: 0}
+	case isListKind(kind) || isSetKind(kind):
+		return &Op{Name: "Add", Vs: []int{0}}
+	case kind == "ArrayStack" || kind == "LinkedListStack" || kind == "BinaryHeap":
+		return &Op{Name: "Push", I: 0}
+	case kind == "ArrayQueue" || kind == "LinkedListQueue" || kind == "CircularBuffer" || kind == "PriorityQueue":
+		return &Op{Name: "Enqueue", I: 0}
+	}
+	return nil
 }
 
 func (g *generator) newCaseBase(prop string, i int) *caseGen {
